@@ -111,6 +111,18 @@ type c18StringTag struct {
 	In c18Leaf `json:"in,string"`
 }
 
+// named map and list types that contain themselves, directly and through each other
+type c18MapOfSelf map[string]c18MapOfSelf
+type c18ListOfSelf []c18ListOfSelf
+type c18MapOfLists map[string]c18ListOfMaps
+type c18ListOfMaps []c18MapOfLists
+type c18HoldsSelfContaining struct {
+	Kids c18MapOfSelf             `json:"kids"`
+	List c18ListOfSelf            `json:"list"`
+	PM   map[string]*c18MapOfSelf `json:"pm"`
+	Both c18MapOfLists            `json:"both,omitempty"`
+}
+
 // the ",string" option reaches through ONE pointer level only: behind two or more the number or boolean is written bare
 type c18StringTagDeep struct {
 	PP  **int      `json:"pp,string"`
@@ -204,6 +216,7 @@ func c18StaticTypes() []reflect.Type {
 		reflect.TypeOf(c18Dict{}), reflect.TypeOf([]c18Name{}), reflect.TypeOf([]*c18Level{}),
 		reflect.TypeOf(c18GTree[int]{}), reflect.TypeOf(c18GTree[string]{}), reflect.TypeOf(c18GPair[string, uint8]{}), reflect.TypeOf(c18GBox[c18Leaf]{}), reflect.TypeOf([]c18GTree[float64]{}),
 		reflect.TypeOf(c18GBox[c18GTree[int]]{}), reflect.TypeOf(c18EmbedCollisionOuterFirst{}), reflect.TypeOf(c18StringTag{}), reflect.TypeOf([]c18StringTag{}), reflect.TypeOf(c18SelfEmbed{}), reflect.TypeOf(c18StringTagDeep{}), reflect.TypeOf(map[string]c18StringTagDeep{}),
+		reflect.TypeOf(c18MapOfSelf{}), reflect.TypeOf(c18ListOfSelf{}), reflect.TypeOf(c18MapOfLists{}), reflect.TypeOf(c18ListOfMaps{}), reflect.TypeOf(c18HoldsSelfContaining{}), reflect.TypeOf([]c18MapOfSelf{}),
 		reflect.TypeOf(c18Leaf{}), reflect.TypeOf(c18Tree{}), reflect.TypeOf(&c18Tree{}), reflect.TypeOf([]c18Tree{}), reflect.TypeOf([]*c18Tree{}), reflect.TypeOf(map[string]*c18Tree{}),
 		reflect.TypeOf(c18A{}), reflect.TypeOf(c18B{}), reflect.TypeOf(c18EmbedCollision{}), reflect.TypeOf(c18EmbedPlain{}), reflect.TypeOf(c18EmbedPtr{}), reflect.TypeOf(c18Times{}),
 		reflect.TypeOf([]*int{}), reflect.TypeOf(map[string]*string{}), reflect.TypeOf([][]*string{}), reflect.TypeOf(map[string][]*c18Leaf{}), reflect.TypeOf([]map[string]*int8{}),
